@@ -1699,7 +1699,7 @@ Proof. reflexivity. Qed.
 Lemma unmarshal_entry_S E A f e cur ts : unmarshal_entry E A (S f) e cur ts =
   match ae_kind e with
   | ETransform kind wire =>
-      ubind (unmarshal_bare E A f wire (zero_of E wire) ts)
+      ubind (unmarshal_bare E A f wire (zero_of E wire) (untag_own (ae_tag e) ts))
             (fun w r => match tr_bwd kind w with Some x => UOk x r | None => UErr (S (length r)) end)
   | EStruct fields =>
       match ts with
@@ -1901,6 +1901,71 @@ Proof.
     try (apply ures_ok1; apply P_val_scalar; reflexivity).
 Qed.
 
+(* ---- [untag_own]: the first token without the entry's own tag ---- *)
+
+Lemma untag_own_nil tg : untag_own tg [] = [].
+Proof. destruct tg; reflexivity. Qed.
+
+Lemma untag_own_length tg ts : length (untag_own tg ts) = length ts.
+Proof.
+  destruct tg as [t|]; [|reflexivity]. destruct ts as [|[v [t'|]] r]; try reflexivity.
+  cbn. destruct (t =? t'); reflexivity.
+Qed.
+
+Lemma untag_own_app tg ts x : ts <> [] -> untag_own tg (ts ++ x) = untag_own tg ts ++ x.
+Proof.
+  intros Hne. destruct ts as [|[v tg'] r]; [contradiction Hne; reflexivity|].
+  destruct tg as [t|]; [|reflexivity]. destruct tg' as [t'|]; [|reflexivity].
+  cbn. destruct (t =? t'); reflexivity.
+Qed.
+
+(* the consumed prefix of the untagged list is the untagged consumed prefix *)
+Lemma untag_own_split tg ts used rest :
+  untag_own tg ts = used ++ rest -> used <> [] ->
+  exists used', ts = used' ++ rest /\ untag_own tg used' = used.
+Proof.
+  intros H Hne. destruct used as [|u0 used]; [contradiction Hne; reflexivity|].
+  destruct tg as [t|]; [|exists (u0 :: used); split; [exact H | reflexivity]].
+  destruct ts as [|[v [t'|]] r]; [discriminate H| |].
+  - cbn in H. destruct (t =? t') eqn:Et.
+    + inversion H; subst. exists (Tok v (Some t') :: used). split; [reflexivity|].
+      cbn. rewrite Et. reflexivity.
+    + inversion H; subst. exists (Tok v (Some t') :: used). split; [reflexivity|].
+      cbn. rewrite Et. reflexivity.
+  - cbn in H. inversion H; subst. exists (Tok v None :: used). split; reflexivity.
+Qed.
+
+Lemma P_val_untag tg u : P_val (untag_own tg u) -> P_val u.
+Proof.
+  destruct tg as [t|]; [|auto]. destruct u as [|[v [t'|]] r]; auto.
+  cbn. destruct (t =? t'); [|auto].
+  intros [[tg0 val] H]. cbn [map] in H.
+  destruct val; cbn in H; (destruct v; cbn in H; inversion H; subst);
+  match goal with
+  | H2 : map norm_tok r = _ |- P_val (Tok ?v _ :: _) =>
+    match v with
+    | Null => exists (Node (Some t') VNull)
+    | Str ?s => exists (Node (Some t') (VStr s))
+    | Byt ?s => exists (Node (Some t') (VByt s))
+    | Bool ?s => exists (Node (Some t') (VBool s))
+    | Int ?s => exists (Node (Some t') (VInt s))
+    | Uint ?s => exists (Node (Some t') (VUint s))
+    | Flt ?s => exists (Node (Some t') (VFlt s))
+    | ArrOpen ?d => match type of H2 with _ = flat_map _ ?l ++ _ => exists (Node (Some t') (VArr d l)) end
+    | MapOpen ?d => match type of H2 with _ = flat_map _ ?l ++ _ => exists (Node (Some t') (VMap d l)) end
+    end; cbn [map]; rewrite H2; reflexivity
+  end.
+Qed.
+
+Lemma ures_okb_untag r tg ts b :
+  ures_okb P_val r (untag_own tg ts) b -> ures_okb P_val r ts b.
+Proof.
+  destruct r as [v rest|k| |]; cbn; auto.
+  intros (used & Eq & HP). pose proof (P_val_nonempty used HP) as Hne.
+  destruct (untag_own_split tg ts used rest Eq Hne) as (used' & -> & <-).
+  exists used'. split; [reflexivity|]. eapply P_val_untag; exact HP.
+Qed.
+
 Section UWF.
   Variable E : tenv.
   Variable A : atlas.
@@ -2002,7 +2067,7 @@ Section UWF.
         * eapply ures_okb_cons; [apply P_val_map|]. apply Hf. len_tac.
         * apply ures_ok1. apply P_val_scalar. reflexivity.
       + eapply ubind_ok with (P := P_val) (Q' := fun u => u = []).
-        * apply Hb. exact Hlen.
+        * apply ures_okb_untag with (tg := ae_tag e). apply Hb. rewrite untag_own_length. exact Hlen.
         * intros u1 u2 H1 ->. rewrite app_nil_r. exact H1.
         * intros w rest used Eq HP. destruct (tr_bwd kind w).
           -- exists []. split; reflexivity.
@@ -2066,6 +2131,18 @@ Proof.
   specialize (Hu t cur ts (length ts) (le_n _)). rewrite H in Hu.
   destruct Hu as (used & Eq & HP). pose proof (P_val_nonempty used HP) as Hne.
   destruct HP as [n Hn]. exists used, n. auto.
+Qed.
+
+(* without a token there is neither a value nor an error *)
+Lemma unmarshal_bare_nil E A f t cur :
+  match unmarshal_bare E A f t cur [] with UOk _ _ | UErr _ => False | _ => True end.
+Proof.
+  destruct (uall_holds E A f) as (_ & Hb & _).
+  specialize (Hb t cur [] 0%nat (le_n _)).
+  destruct (unmarshal_bare E A f t cur []) as [v rest|k| |]; cbn in Hb; try exact I.
+  - destruct Hb as (used & Eq & HP). apply P_val_nonempty in HP.
+    destruct used; [contradiction HP; reflexivity | discriminate Eq].
+  - lia.
 Qed.
 
 (* an error is always attributed to one of the given tokens *)
@@ -2199,8 +2276,13 @@ Section Frame.
       destruct (ae_kind e) as [fields|kind wire|members|mode].
       + destruct ts as [|[v tg] r]; [exact I|]. rewrite <- app_comm_cons.
         destruct v; try fr_err; try apply uframe_ok. apply Hf.
-      + apply uframe_ubind; [apply Hb|]. intros w rest.
-        destruct (tr_bwd kind w); [apply uframe_ok | apply uframe_err_S].
+      + destruct ts as [|t0 r0].
+        * rewrite untag_own_nil. cbn [app].
+          pose proof (unmarshal_bare_nil E A f wire (zero_of E wire)) as Hn.
+          destruct (unmarshal_bare E A f wire (zero_of E wire) []); try contradiction; exact I.
+        * rewrite untag_own_app by discriminate.
+          apply uframe_ubind; [apply Hb|]. intros w rest.
+          destruct (tr_bwd kind w); [apply uframe_ok | apply uframe_err_S].
       + destruct ts as [|[v tg] r]; [exact I|]. rewrite <- app_comm_cons.
         destruct v; try fr_err.
         destruct ((len =? -1) || (len =? 1)); [|fr_err].
